@@ -594,6 +594,50 @@ theorem adapt_decision_operator_blind (conv : Graph → Graph) (c : Ctx) (varNam
   unfold adaptInline
   rw [if_pos h0, if_pos h']
 
+/-- **`adapt_converts`**: on the raw data - some emitted top-level node in the default domain, the inlined
+    model's highest default-domain import `v` differs from the target - `adapt_inline` returns the
+    renaming, in the fresh scope, of the WHOLE converted model (bodies included: `conv` maps the nested
+    graph), never the nodes of the build; whatever the top-level operators are. -/
+theorem adapt_converts (conv : Graph → Graph) (c : Ctx) (varNames : List String) (g : Graph)
+    (first : List Node) (imports : List (String × Nat)) (target v : Nat)
+    (hdom : ∃ n ∈ first, n.op.domain = "" ∨ n.op.domain = "ai.onnx")
+    (hsrc : sourceVersion imports = some v) (hne : v ≠ target) :
+    adaptInline conv c varNames g first (defaultImports imports) target =
+      (match toOnnx (freshCtx c varNames) (conv g) with
+       | .ok em => .ok em.nodes
+       | .error e => .error e) := by
+  have h : needsConversionFull (first.map fun n => n.op.domain) imports target = true := by
+    rw [adapt_decision_spec]
+    obtain ⟨n, hn, hd⟩ := hdom
+    exact ⟨⟨n.op.domain, List.mem_map.mpr ⟨n, hn, rfl⟩, hd⟩, v, hsrc, hne⟩
+  have h0 : needsConversion (first.map fun n => n.op.domain) (defaultImports imports) target = true := h
+  unfold adaptInline
+  rw [if_pos h0]
+  cases toOnnx (freshCtx c varNames) (conv g) <;> rfl
+
+/-- **`adapt_keeps`**: the nodes of the build are returned unchanged exactly in the remaining cases - the
+    source version is the target, the model imports no default domain, or no emitted top-level node lies
+    in the default domain. -/
+theorem adapt_keeps (conv : Graph → Graph) (c : Ctx) (varNames : List String) (g : Graph)
+    (first : List Node) (imports : List (String × Nat)) (target : Nat)
+    (h : sourceVersion imports = some target ∨ sourceVersion imports = none ∨
+         ∀ n ∈ first, n.op.domain ≠ "" ∧ n.op.domain ≠ "ai.onnx") :
+    adaptInline conv c varNames g first (defaultImports imports) target = .ok first := by
+  have hf : needsConversionFull (first.map fun n => n.op.domain) imports target = false := by
+    cases hb : needsConversionFull (first.map fun n => n.op.domain) imports target with
+    | false => rfl
+    | true =>
+      exfalso
+      obtain ⟨⟨d, hd, hdd⟩, v, hv, hne⟩ := (adapt_decision_spec _ _ _).mp hb
+      rcases h with h | h | h
+      · rw [h] at hv; exact hne (Option.some.inj hv).symm
+      · rw [h] at hv; cases hv
+      · obtain ⟨n, hn, rfl⟩ := List.mem_map.mp hd
+        rcases hdd with e | e
+        · exact (h n hn).1 e
+        · exact (h n hn).2 e
+  exact adapt_noop conv c varNames g first (defaultImports imports) target hf
+
 /-- **`adapt_decision_ignores_other_domains`**: an import of another domain (ai.onnx.ml, a custom domain,
     an import no node uses), listed anywhere among the imports and at any version, changes neither the
     source version nor the decision. -/
@@ -603,7 +647,7 @@ theorem adapt_decision_ignores_other_domains (pre post : List (String × Nat)) (
     needsConversionFull protoDomains (pre ++ (d, ver) :: post) target
       = needsConversionFull protoDomains (pre ++ post) target := by
   have h : defaultImports (pre ++ (d, ver) :: post) = defaultImports (pre ++ post) := by
-    simp [defaultImports, List.filter_cons, hd.1, hd.2]
+    simp [defaultImports, hd.1, hd.2]
   unfold sourceVersion needsConversionFull
   rw [h]
   exact ⟨rfl, rfl⟩
